@@ -43,6 +43,9 @@ TEnvLink == /\ IsEvent("env_link")
 TIfaceEvent == IsEvent("iface_event") /\ D!IfaceEvent(Cur.name, Cur.idx, Cur.state) /\ UNCHANGED used
 TQueueResync == IsEvent("queue_resync") /\ D!QueueResync /\ UNCHANGED used
 TQueueResyncIface == IsEvent("queue_resync_iface") /\ D!QueueResyncIface(Cur.name) /\ UNCHANGED used
+\* the driver arms "the next route dump that delivers this route is interrupted (EINTR) and the route is gone
+\* before the retry"; the deletion itself arrives as an env_routes event in the middle of the Apply
+TDumpRace == IsEvent("dump_race") /\ UNCHANGED vars
 TFail == IsEvent("fail") /\ D!Fail(SeqToSet(Cur.flags)) /\ UNCHANGED used
 \* the interfaces do not change during an Apply (the driver is sequential); the logged links are checked to
 \* be the ones the spec already has, so that a harness slip cannot be mistaken for a verdict
@@ -51,6 +54,6 @@ TApply == /\ IsEvent("apply")
           /\ D!Apply(Cur.ok, SeqToSet(Cur.kernel)) /\ UNCHANGED used
 
 TNext == TReset \/ TSetRoutes \/ TRouteUpdate \/ TRouteRemove \/ TEnvRoutes \/ TEnvLink \/ TIfaceEvent
-         \/ TQueueResync \/ TQueueResyncIface \/ TFail \/ TApply
+         \/ TQueueResync \/ TQueueResyncIface \/ TFail \/ TDumpRace \/ TApply
 TSpec == TInit /\ [][TNext]_<<vars, l>>
 =============================================================================
